@@ -22,6 +22,7 @@ RULE = (
     "unpickled AST to be that very object (hence structurally equal: op, args, length, annotation contents) and "
     "equivalent, and unpickled solvers to answer a fixed set of queries as the reference says.  Non-trivial: the "
     "pickled object has an operator node / the solver has at least one constraint; distinct by descriptor hash."
+    " Session 4: a solver and its copy in one pickle; replacement/hybrid solvers with float replacements unpickled under another hash seed."
 )
 ASSUMPTIONS = ["pickles are exchanged between processes running the same claripy tree only"]
 
